@@ -153,6 +153,72 @@ theorem calibrate_unchanged_iff_identity (g c : Rat) (hg : g ≠ 0) :
   · rintro ⟨rfl, rfl⟩ d
     simp [calibrate]
 
+/-! ### `calibrate` against the pure formula, and arrays -/
+
+/-- mechanism = specification: the shortcut changes nothing — for every line with a usable gradient `calibrate`
+(shortcut for the exact identity, arithmetic otherwise) is the formula `(r − c) / g`, NaN staying NaN.  In
+particular the identity returns every value unchanged *because* `(r − 0) / 1 = r`, not because a branch says so. -/
+theorem calibrate_is_formula (g c : Rat) (hg : g ≠ 0) (d : V) : calibrate g c d = specCalibrate g c d := by
+  unfold calibrate specCalibrate
+  split
+  · next h => obtain ⟨hc, h1⟩ := h; subst hc; subst h1; cases d <;> simp
+  · cases d with
+    | none => rfl
+    | some q => simp
+
+/-- the returned value is THE concentration of the response: `calibrate` maps `r` to `x` exactly when `r` lies on
+the line at `x` (so the result is determined by the property's clause alone, for every response — integer counts,
+values below the blank, anything — not only for those built from a concentration) -/
+theorem calibrate_eq_iff_on_line (g c r x : Rat) (hg : g ≠ 0) :
+    calibrate g c (some r) = some x ↔ g * x + c = r := by
+  rw [calibrate_is_formula g c hg]
+  simp only [specCalibrate, Option.map_some, Option.some.injEq]
+  rw [div_eq_iff hg]
+  constructor <;> intro h <;> linarith
+
+/-- …stated with the executable predicate the driver evaluates on every case -/
+theorem onLine_calibrate (g c : Rat) (hg : g ≠ 0) (r : V) : onLine g c r (calibrate g c r) = true := by
+  cases r with
+  | none => simp [calibrate_nan, onLine]
+  | some q =>
+    rw [calibrate_is_formula g c hg]
+    simp only [specCalibrate, Option.map_some, onLine, decide_eq_true_eq]
+    field_simp
+    ring
+
+/-- arrays: calibrating the responses of any array of concentrations (NaN entries included) returns the array —
+`calibrate ∘ response-of = id`, of any length (shape is carried by the flat order) -/
+theorem calibrate_array_inverts (g c : Rat) (hg : g ≠ 0) (xs : List V) :
+    (xs.map (fun x => x.map (fun q => g * q + c))).map (calibrate g c) = xs := by
+  rw [List.map_map]
+  conv_rhs => rw [← List.map_id xs]
+  apply List.map_congr_left
+  intro x _
+  cases x with
+  | none => exact calibrate_nan g c
+  | some q => exact calibrate_inverts g c q hg
+
+/-- …and the other way round: the responses of the calibrated array are the data (`response-of ∘ calibrate = id`),
+so `calibrate` is a bijection of arrays: no two different arrays of responses share their concentrations, nothing
+is truncated or merged -/
+theorem calibrate_array_preimage (g c : Rat) (hg : g ≠ 0) (rs : List V) :
+    (rs.map (calibrate g c)).map (fun x => x.map (fun q => g * q + c)) = rs := by
+  rw [List.map_map]
+  conv_rhs => rw [← List.map_id rs]
+  apply List.map_congr_left
+  intro r _
+  cases r with
+  | none => simp [calibrate_nan]
+  | some q =>
+    rw [Function.comp_apply, calibrate_is_formula g c hg]
+    simp only [specCalibrate, Option.map_some, id, Option.some.injEq]
+    field_simp
+    ring
+
+theorem calibrate_array_injective (g c : Rat) (hg : g ≠ 0) (r₁ r₂ : List V)
+    (h : r₁.map (calibrate g c) = r₂.map (calibrate g c)) : r₁ = r₂ := by
+  rw [← calibrate_array_preimage g c hg r₁, ← calibrate_array_preimage g c hg r₂, h]
+
 /-! ### sessions: several operations on one object -/
 
 /-- a `calibrate` call at the end of any session uses the line the object holds at that moment and nothing else
@@ -425,6 +491,66 @@ theorem err2_nonneg (l : List Pt) : 0 ≤ err2 l := by
       linarith
   · exact le_refl _
 
+/-! ## the whole fit clause against the NaN-free table
+
+The three theorems below do not mention the mask `update_linreg` computes (`usableRows`): the table handed to pewlib is
+related to the NaN-free table by `NanInsert` (NaN rows inserted anywhere, any number of them) and `List.Perm` (any
+order), and the result is compared with the specification evaluated on the NaN-free table alone: entry-by-entry
+weights (`specPts`), the textbook centred line, the squared weighted correlation, the residual variance. -/
+
+/-- any number of rows with NaN in either or both cells, inserted at any positions, in any order of the whole table,
+change nothing: the fit is the fit of the NaN-free table (generalises `fit_nan_interleave` from one inserted row to
+all, and composes it with `fit_perm`) -/
+theorem fit_nan_insert_perm (wt : Weighting) (clean rows rows' : List Row)
+    (hins : NanInsert clean rows) (hperm : rows'.Perm rows) :
+    updateLinreg wt rows' = updateLinreg wt clean := by
+  rw [fit_perm wt rows' rows hperm]
+  apply fit_nan_rows_irrelevant
+  rw [hins.usable_eq, hins.clean_usable]
+
+/-- "fewer than two usable points reset to the identity instead of failing", with "usable" stated on the table itself:
+whatever NaN rows surround fewer than two NaN-free rows, in whatever order -/
+theorem few_usable_identity (wt : Weighting) (clean rows rows' : List Row)
+    (hins : NanInsert clean rows) (hperm : rows'.Perm rows) (h : clean.length < 2) :
+    updateLinreg wt rows' = identityFit := by
+  rw [fit_nan_insert_perm wt clean rows rows' hins hperm]
+  apply few_points_identity
+  rw [hins.clean_usable]; exact h
+
+/-- The fit clause of the property in one statement.  For every NaN-free table `clean` whose specified weights are
+positive and which holds two distinct concentrations, every table `rows'` obtained from it by inserting NaN rows
+anywhere and reordering, and every supported weighting: the gradient and intercept `update_linreg` stores are the
+textbook weighted least-squares line of `clean`, no line has a smaller weighted residual sum, r² is the squared
+weighted correlation and lies in [0, 1] (where the responses are not constant), `error`² is the residual variance. -/
+theorem fit_is_specification (wt : Weighting) (clean rows rows' : List Row)
+    (hins : NanInsert clean rows) (hperm : rows'.Perm rows)
+    (hw : ∀ p ∈ specPts wt clean, 0 < p.w)
+    (hx : ∃ p ∈ specPts wt clean, ∃ q ∈ specPts wt clean, p.x ≠ q.x) :
+    (updateLinreg wt rows').gradient = specGradient (specPts wt clean) ∧
+    (updateLinreg wt rows').intercept = specIntercept (specPts wt clean) ∧
+    (∀ a b : Rat, cost (updateLinreg wt rows').gradient (updateLinreg wt rows').intercept (specPts wt clean)
+        ≤ cost a b (specPts wt clean)) ∧
+    (0 < Dy (specPts wt clean) →
+      (updateLinreg wt rows').rsq = some (some (specRsq (specPts wt clean))) ∧
+      0 ≤ specRsq (specPts wt clean) ∧ specRsq (specPts wt clean) ≤ 1) ∧
+    (updateLinreg wt rows').err2 = some (specErr2 (specPts wt clean)) := by
+  obtain ⟨p, hp, q, hq, hpq⟩ := hx
+  have hw0 : ∀ p ∈ specPts wt clean, 0 ≤ p.w := fun p hp => le_of_lt (hw p hp)
+  have hD : 0 < D (specPts wt clean) := D_pos_of _ hw0 p q hp hq (hw p hp) (hw q hq) hpq
+  have hS : Sw (specPts wt clean) ≠ 0 := ne_of_gt (Sw_pos_of_D_pos _ hw0 hD)
+  have hlen : ¬ (usableRows clean).length < 2 := by
+    rw [hins.clean_usable, ← specPts_length wt clean]
+    have := length_ge_two_of_ne hp hq (fun h => hpq (by rw [h]))
+    omega
+  rw [fit_nan_insert_perm wt clean rows rows' hins hperm, updateLinreg_eq, if_neg hlen,
+    fitPts_eq_specPts wt clean hins.clean_usable]
+  obtain ⟨hg, hc⟩ := fit_is_centred_form _ (ne_of_gt hD) hS
+  refine ⟨hg, hc, fun a b => optimal _ hw0 hD a b, fun hDy => ⟨?_, specRsq_bounds _ hw0 hD hDy⟩, ?_⟩
+  · show some (rsqMech _) = _
+    rw [rsq_is_squared_correlation _ hw0 hD hDy]
+  · show some (err2 _) = _
+    rw [err2_is_residual_variance _ (ne_of_gt hD) hS]
+
 /-! ## non-vacuity -/
 
 def exRows : List Row :=
@@ -465,10 +591,31 @@ example : (usableRows [⟨some 1, none, none⟩, ⟨some 2, some 3, none⟩]).le
 example : (⟨some (1/2), none, some 2⟩ : Row).x = none ∨ (⟨some (1/2), none, some 2⟩ : Row).y = none := Or.inr rfl
 example : calibrate 2 3 (some (2 * 5 + 3)) = some 5 := by decide +kernel
 
+-- fit_is_specification / fit_nan_insert_perm / few_usable_identity: the NaN-free table of `exRows`, `exRows` itself
+-- (one NaN row inserted) and a reordering of it
+def exClean : List Row := [⟨some 0, some 1, some 1⟩, ⟨some 1, some 2, some 3⟩, ⟨some 2, some 4, some 1⟩]
+example : NanInsert exClean exRows :=
+  .keep _ rfl rfl (.nan _ (Or.inr rfl) (.keep _ rfl rfl (.keep _ rfl rfl .nil)))
+example : (exRows.reverse).Perm exRows := List.reverse_perm _
+example : (∀ p ∈ specPts (.builtin ⟨false, .inv⟩) exClean, 0 < p.w) ∧
+    (∃ p ∈ specPts (.builtin ⟨false, .inv⟩) exClean, ∃ q ∈ specPts (.builtin ⟨false, .inv⟩) exClean, p.x ≠ q.x) ∧
+    0 < Dy (specPts (.builtin ⟨false, .inv⟩) exClean) ∧
+    specGradient (specPts (.builtin ⟨false, .inv⟩) exClean) = 10/7 ∧
+    (updateLinreg (.builtin ⟨false, .inv⟩) exRows.reverse).gradient = 10/7 := by decide +kernel
+example : NanInsert [⟨some 2, some 3, none⟩] [⟨some 1, none, none⟩, ⟨some 2, some 3, none⟩, ⟨none, none, none⟩] :=
+  .nan _ (Or.inr rfl) (.keep _ rfl rfl (.nan _ (Or.inl rfl) .nil))
+
 -- calibrate_fixed_point_iff / calibrate_unchanged_iff_identity: a line next to the identity moves data
 example : (1000001 / 1000000 : Rat) ≠ 0 ∧
     calibrate (1000001 / 1000000) (1 / 1000000000) (some (1 / 1000000000)) = some 0 := by decide +kernel
 example : calibrate 2 3 (some (-3)) = some (-3) ∧ (2 : Rat) * (-3) + 3 = -3 := by decide +kernel
+-- calibrate_is_formula / calibrate_eq_iff_on_line / arrays: raw counts [12, 17, 27, 40] under 40·x + 12
+example : (40 : Rat) ≠ 0 ∧ [some 12, some 17, none, some 40].map (calibrate 40 12) = [some 0, some (1/8), none, some (7/10)] ∧
+    [some 12, some 17, none, some 40].map (specCalibrate 40 12) = [some 0, some (1/8), none, some (7/10)] ∧
+    (40 : Rat) * (1/8) + 12 = 17 ∧ onLine 40 12 (some 17) (some (1/8)) = true ∧ onLine 40 12 (some 17) (some 0) = false := by
+  decide +kernel
+-- the identity is the formula too: (r − 0) / 1
+example : [some 12, none, some (-3)].map (specCalibrate 1 0) = [some 12, none, some (-3)] := by decide +kernel
 -- sessions: fit, then too few usable points, then an assigned line
 def exSession : List Step :=
   [.refit (.builtin ⟨false, .inv⟩) exRows, .calibrate [some 2, none],
